@@ -134,16 +134,37 @@ func LimitProgram(r *prng.R, kind string, big bool) []byte {
 		sb.WriteString("7")
 		sb.WriteString(strings.Repeat(")", n))
 	case "jump-and", "jump-or":
-		if !big {
-			return LimitProgram(r, "flatchain", big)
-		}
-		n := r.Range(32762, 32772)
+		// the right operand compiles to about 65536 bytes of code, so that the 16-bit jump
+		// distance is just below, at or above its limit; terms of different code size (ONE ADD =
+		// 2 bytes, CONST k ADD = 3, ONE NEG ADD = 3, GETLOCAL ADD) and both truth values of the
+		// left operand, so that the jump is taken or not and a wrong distance lands anywhere
 		op := "and"
 		if kind == "jump-or" {
 			op = "or"
 		}
-		fmt.Fprintf(&sb, "print 1 %s 1", op)
-		sb.WriteString(strings.Repeat("+1", n-1))
+		left := prng.Pick(r, []string{"0", "1", "false", "true", "\"\"", "v"})
+		target := 65536 + r.Range(-9, 9)
+		if r.Chance(1, 4) {
+			target = 65536 + r.Range(-300, 3000)
+		}
+		fmt.Fprintf(&sb, "var v = %d\nprint %s %s 1", r.Intn(2), left, op)
+		size := 1
+		for size < target {
+			switch r.Intn(5) {
+			case 0, 1:
+				sb.WriteString("+1")
+				size += 2
+			case 2:
+				sb.WriteString("+7")
+				size += 3
+			case 3:
+				sb.WriteString("+ -1")
+				size += 3
+			default:
+				sb.WriteString("*v")
+				size += 3
+			}
+		}
 	case "repeat":
 		cnt := prng.Pick(r, []int{-2, -1, 0, 1, 2, 1024, 65536, 1048576})
 		s := prng.Pick(r, []string{"", "a", "ab"})
